@@ -38,6 +38,14 @@ def Role.isAllowed (r : Role) (p : Permission) : Option Handle → Bool
     | Option.none => has r.any p
   | Option.none => has r.none p
 
+/-- The permission set `is_allowed` consults for a resource: `permissions(role, ca)`. -/
+def Role.perms (r : Role) : Option Handle → PermSet
+  | some h =>
+    match r.entry h with
+    | some s => s
+    | Option.none => r.any
+  | Option.none => r.none
+
 /-- `Role::simple` -/
 def Role.simple (s : PermSet) : Role := ⟨s, s, []⟩
 
